@@ -189,3 +189,19 @@ Definition run_c07_simulate (s : sx) : sx :=
       end
   | _ => bad_request
   end.
+
+(* [bn vars start] (start: integers, possibly negative or too large) -> 1 when every start value is a state number
+   of its variable (0 <= s < card), else 0: the verdict MarkovChain._check_state must reach (ValueError iff 0) *)
+Definition run_c07_start_ok (s : sx) : sx :=
+  match s with
+  | SL [sb; sv; st] =>
+      match dec_bn sb, sx_list sx_nat sv, sx_list sx_Z st with
+      | Some b, Some vars, Some start =>
+          if Nat.eqb (length start) (length vars)
+          then sx_ok (of_bool (forallb (fun vz => (0 <=? snd vz)%Z && (snd vz <? Z.of_nat (cardf b (fst vz)))%Z)
+                                       (combine vars start)))
+          else sx_err E_INPUT
+      | _, _, _ => bad_request
+      end
+  | _ => bad_request
+  end.
